@@ -135,8 +135,8 @@ CHECKS = {
             'actions: exceptions to callers, TCP connections, keep-alive echo '
             'after refused calls, termination, reuse; I/O role sequence never '
             'interleaves and no thread touches a foreign transport; 24/300 '
-            'concurrent two-user runs. Two schedule-dependent stale-thread '
-            'effects are recorded known findings (keyed by code path).',
+            'concurrent two-user runs. Six stale-thread effects with one '
+            'root cause are recorded known findings (keyed by mechanism).',
             'transport errors reported under racing user calls are legitimate;'
             ' watchdog firing = inconclusive.',
             'DESIGN.md §3 C16'),
@@ -246,7 +246,7 @@ EXTRA = {
  'C13': " A second registration phase in mid-session (sentinel frames delimit the phases) and concurrent registration from two threads are included. Outgoing listeners that themselves write (nested dispatch) and, from protocol 755, the specialised combat-event subclasses under a superclass filter. Packets with empty collections, accounting of dispatched vs sent packets per class, an early listener that disconnects without ignoring. The same packet object written three times; the server kicks (packets + disconnect + close) while a client write is failing - everything received is still dispatched. One decorator object applied to two functions; one callable registered twice in a list. Every listener is drawn from five kinds of callable (function, bound method of an object nobody else refers to, partial, callable instance, falsy callable instance); garbage is collected after registration. Directed: an early listener ignoring Set Compression (server stays uncompressed); a packet whose send is refused once - early outgoing listeners exactly once, late ones at most once, packet at most once on the wire. A subclass of a registered leaf class defined after registration.",
  'C14': " Final handler modes include a reconnecting one; a delay-injection scenario has another thread inside connect() while the failing thread decides on its teardown. Two more origins: an OSError-family fault from a listener during the negotiation status phase, and an outgoing-listener fault while the server's disconnect packet is already readable. Handler behaviours include reconnect-and-raise and disconnect; faults with packets still queued and a guard listener; the exception that escapes the thread must be the routed one. Handlers return None/False/True/0/''; a final handler that delegates the reconnect to a supervisor thread and waits (a dead-lock is proven by the owner of the write lock). Filters spelled as tuples/nested tuples; a listener that disconnects and then fails with a transport-flavoured exception type. Origin 'fallback-connect-refused' (exception raised inside the reactor's own hook); a user thread reconnecting while the failing thread is in its handler, with the successor's start delayed. Chains contain the same handler registered twice with the same filter (also as an early re-registration) and filters made only of BaseException subclasses outside Exception. Fault objects that refuse attribute assignment; the first handler of a chain may use a bare raise and sees the fault as the active exception. Final handlers that unregister themselves.",
  'C15': " Crash points include 'closes on accept'; a plain status() after a negotiation that ended in its status phase (reactor construction slowed down) and the automatic fallback session (must be an ordinary session) are judged too. Scenarios also cover a default version outside a multi-element allowed set (a looping client is a violation) and status() with latency measurement cut after the ping. Resets at frame boundaries also in quick; a thread that keeps running at full CPU after the peer has gone is a violation (per-thread CPU time); login connect refused after a complete status reply. Case-to-shard assignment is by hash of the case. Frames of 300, 20000 and 70000 bytes (cuts inside 2- and 3-byte length prefixes and inside a body beyond 64 KiB, sampled offsets). Directed: a half-open peer that no longer reads while a backlog is queued; a forced write inside a listener that is the first to notice the server's close. A second Connection object stalled in a blocking send while the first one's server stops inside a frame. In a third of the cut points the wall clock is stepped +-1 h at the moment the server goes away; a thread that then neither ends nor runs, with no connection open, is a violation. Connections on descriptor numbers >= 1100 (select()'s FD_SETSIZE): work, or report and end - never spin.",
- 'C16': " Deterministic delay-injection scenarios: hand-over gap, check-vs-lock, stale read (LINE hook at the read statement), cancel-reconnect inside a listener; every history ends with a reuse probe. Histories include disconnects of a thread blocked inside a frame from a silent server, and the same action pairs after sessions that switched on encryption. Actions also cover disconnect() during an unanswered version negotiation (with a pause injected between socket shutdown and stream close) and a listener that reconnects and lingers 3-4 s. connect() from the latency callback of status(); an early keep-alive listener that reconnects without IgnorePacket (no reply of the old session may reach the new one). An exit callback that reconnects and lingers; descriptors and networking threads left behind by the histories are accounted. Two-connection cases: listeners that disconnect each other's connection at the same moment; an exit callback that delegates the reconnect to a supervisor thread and waits. Refused calls on an active connection are made by a listener (the networking thread) in half of the cases; directed: the networking thread is held at each statement of the encryption branch of LoginReactor.react while a user thread disconnects - later disconnect() calls must not raise and the object must connect again. Around every refused call the live connection is spawned and its allowed versions widened: spawned/connected/protocol version must not change; disconnect() whose flush fails with time-out/unreachable/no-buffers errors does not raise and the thread ends. NetworkingThread.start failing once; listeners raising SystemExit/KeyboardInterrupt, then connect() with and without disconnect(); the ordinary listener for the status response after a racing disconnect.",
+ 'C16': " Deterministic delay-injection scenarios: hand-over gap, check-vs-lock, stale read (LINE hook at the read statement), cancel-reconnect inside a listener; every history ends with a reuse probe. Histories include disconnects of a thread blocked inside a frame from a silent server, and the same action pairs after sessions that switched on encryption. Actions also cover disconnect() during an unanswered version negotiation (with a pause injected between socket shutdown and stream close) and a listener that reconnects and lingers 3-4 s. connect() from the latency callback of status(); an early keep-alive listener that reconnects without IgnorePacket (no reply of the old session may reach the new one). An exit callback that reconnects and lingers; descriptors and networking threads left behind by the histories are accounted. Two-connection cases: listeners that disconnect each other's connection at the same moment; an exit callback that delegates the reconnect to a supervisor thread and waits. Refused calls on an active connection are made by a listener (the networking thread) in half of the cases; directed: the networking thread is held at each statement of the encryption branch of LoginReactor.react while a user thread disconnects - later disconnect() calls must not raise and the object must connect again. Around every refused call the live connection is spawned and its allowed versions widened: spawned/connected/protocol version must not change; disconnect() whose flush fails with time-out/unreachable/no-buffers errors does not raise and the thread ends. NetworkingThread.start failing once; listeners raising SystemExit/KeyboardInterrupt, then connect() with and without disconnect(); the ordinary listener for the status response after a racing disconnect. Hold-at-statement sweep: the networking thread is held at each statement of LoginReactor.react, PlayingReactor.react and Connection._react in turn (all 66 in thorough, 24 sampled in quick) while a user thread calls disconnect() (nothing goes on afterwards, no raise, object reusable) or disconnect(); connect() (working successor or a named stale-thread mechanism; refusal probe afterwards).",
  'C18': " End to end: histories of accepted/rejected/dropped encrypted logins on one Connection object; every secret recovered by the key holder must be new and the accepted sessions must work. The e2e sessions include a slow listener on the encryption request (encrypted bytes already waiting in the same read batch) and a consumer that takes part of the incoming stream through connection.socket.recv. Secrets must stay fresh when the application re-seeds `random`; concurrent hand-overs to servers with different keys under yield injection. A plugin request in the same segment as the encryption request (answer in the clear before, or encrypted after, the response); a late outgoing listener raising IgnorePacket on the response. Zero-length reads inside partitions; an exception from a wrapper call is a verdict. Every I/O method the cipher wrappers offer over a real socket pair (send/sendall/sendmsg/recv/recv_into/read/readinto/readline/...) must continue the cipher stream. The underlying send() refused once with a transient errno: what reached the socket is the encryption of what was accepted; recv(n, MSG_PEEK) - refused, or harmless to the stream. The send of the encryption response failing with a broken pipe (no cipher afterwards); shutdown(SHUT_WR) on the wrapper leaves the incoming direction working.",
  'C19': " Error replies include bodies and fields full of str.format / % metacharacters. 24 further 4xx/5xx status codes; bodies that are not valid UTF-8; the error type's constructor. Success replies repeat part of the stored state (same profile id under a new name, same name, same tokens). Overload statuses carry a Retry-After header in half of the cases (one request, one outcome); error objects in declared charsets ISO-8859-1, windows-1252 and UTF-16. Token subclass / instance overriding the agent attributes; a token whose profile attribute is None.",
  'C20': " Map patches with an incomplete last row; twin enum classes queried ints-first and other-types-first must agree. Maps that are not square; record construction by position; accessor setters starting from existing values and in both orders. Map histories reuse one icon list edited in place between packets; records with any proper subset of fields set are given to position_and_look on four packet classes (no value may land under another field's name). A flag class's very first question is pre-empted at every statement while a second thread asks; map packets are built from the tracked map's own icon list or a generator over it. Records holding one shared NaN object or compared with themselves; copies and pickles of records and vectors; one-shot iterables assigned through aliases.",
